@@ -3,10 +3,15 @@
 package graph
 
 // Verification-only accessors for property C08 (injected with `go build -overlay`): the
-// "ancestor list is full" checks and the attach function that consults them.
+// "ancestor list is full" checks, the attach function that consults them, and the route builders
+// (to obtain real aggregated validation messages).
 
 import (
+	"k8s.io/apimachinery/pkg/types"
+	v1 "sigs.k8s.io/gateway-api/apis/v1"
 	"sigs.k8s.io/gateway-api/apis/v1alpha2"
+
+	"github.com/nginx/nginx-gateway-fabric/internal/mode/static/state/validation"
 )
 
 const VerifC08MaxAncestors = maxAncestors
@@ -21,4 +26,20 @@ func VerifC08NGFPolicyAncestorsFull(policy *Policy, ctlrName string) bool {
 
 func VerifC08AttachPolicyToRoute(policy *Policy, route *L7Route, ctlrName string) {
 	attachPolicyToRoute(policy, route, ctlrName)
+}
+
+func VerifC08BuildHTTPRoute(
+	validator validation.HTTPFieldsValidator,
+	hr *v1.HTTPRoute,
+	gatewayNsNames []types.NamespacedName,
+) *L7Route {
+	return buildHTTPRoute(validator, hr, gatewayNsNames, nil)
+}
+
+func VerifC08BuildGRPCRoute(
+	validator validation.HTTPFieldsValidator,
+	gr *v1.GRPCRoute,
+	gatewayNsNames []types.NamespacedName,
+) *L7Route {
+	return buildGRPCRoute(validator, gr, gatewayNsNames, false, nil)
 }
